@@ -179,6 +179,32 @@ pub fn guided(c: &mut Compiled, alpha: &[char], foreign: char, rng: &mut Rng, co
     out
 }
 
+/// Largest prefix length (doubling from 256) whose reference work (characters examined by scans
+/// and by right-context evaluations) stays within `budget`. Rewind- and context-heavy definitions
+/// are inherently quadratic or cubic in the input length; this keeps every stress execution
+/// bounded without judging speed.
+pub fn bounded_prefix_len(c: &mut Compiled, input: &[char], budget: u64) -> usize {
+    let mut n = 256.min(input.len());
+    let mut best = n;
+    loop {
+        c.ctx_steps = 0;
+        let work = {
+            let mut rr = crate::reflex::RefRun::new(c, &input[..n], false, 0, false);
+            let h = rr.run(n + 4);
+            h.stats.chars_examined
+        } + c.ctx_steps;
+        if work > budget {
+            break;
+        }
+        best = n;
+        if n >= input.len() {
+            break;
+        }
+        n = (n * 2).min(input.len());
+    }
+    best
+}
+
 /// Long stress inputs for the progress family.
 pub fn stress(alpha: &[char], foreign: char, rng: &mut Rng, n: usize) -> Vec<Vec<char>> {
     let mut out = vec![];
